@@ -9,6 +9,7 @@ CONSTANTS
   InvalidSel <- InvFew
   MaxBatches = 1
   MaxOps = 1
+  SymHooks = TRUE
   MinOps = 0
   MaxTotalOps = 1
   MaxInvalid = 0
